@@ -1,0 +1,20 @@
+//go:build verif
+
+package loki
+
+// C16 (attributes an event carries are stored intact): on the protobuf push
+// path the stream's labels arrive as the text promtail prints for a label set,
+// {k="v", k2="v2"}: pairs are separated by a comma FOLLOWED BY A SPACE.  A bare
+// comma is an ordinary character of a (quoted) label value, so the pair
+// separator handed to strings.Split is the two-character one and a pair is
+// split into key and value as it stands.
+// Checked by /verif/bin/govc.  Comment-only file.
+
+//@ func parseLabels
+//@   props C16
+//@   assumecalleerequires
+//@   site call strings.Split #1:
+//@     assert [pairs-are-separated-by-comma-space] arg1 == ", "
+//@   site call strings.Split #2:
+//@     assert [a-pair-is-split-as-it-stands] arg0 == pair && arg1 == "="
+//@ end
